@@ -23,6 +23,20 @@ class StepSocket(sim.SimSocket):
     def readable(self):
         return bool(self.inbox) or self.eof
 
+    # a thread switch right after a read returns is the likeliest pre-emption point of a reader thread: the harness may
+    # install a hook that lets ANOTHER association's provider thread run at exactly that point
+    io_hook = None
+    _in_hook = False
+
+    def _after_io(self):
+        hook = StepSocket.io_hook
+        if hook is not None and not StepSocket._in_hook:
+            StepSocket._in_hook = True
+            try:
+                hook(self)
+            finally:
+                StepSocket._in_hook = False
+
     def recv(self, n, flags=0):
         import socket as _socket
         if flags & _socket.MSG_WAITALL:
@@ -34,10 +48,28 @@ class StepSocket(sim.SimSocket):
             if len(seg) > n:
                 self.inbox.appendleft(seg[n:])
                 seg = seg[:n]
+            self._after_io()
             return seg
         if self.eof:
             return b''
         raise api.Hang('recv() would block for ever')
+
+    def recv_into(self, buffer, nbytes=0, flags=0):
+        import socket as _socket
+        if self.closed:
+            raise _socket.error('closed')
+        n = nbytes or len(buffer)
+        if self.inbox:
+            seg = self.inbox.popleft()
+            if len(seg) > n:
+                self.inbox.appendleft(seg[n:])
+                seg = seg[:n]
+            buffer[:len(seg)] = seg
+            self._after_io()
+            return len(seg)
+        if self.eof:
+            return 0
+        raise api.Hang('recv_into() would block for ever')
 
     # what socketserver.StreamRequestHandler touches
     def makefile(self, *a, **k):
@@ -216,6 +248,7 @@ def install(clock):
     asceprovider.dulprovider = LiveDulModule
     asceprovider.time = A.NoSleep
     asceprovider.socketserver = _SocketServerStub
+    StepSocket.io_hook = None
     LiveDulModule.created = []
     LiveDulModule.queue = []
     LiveDulModule.next_peer = None
